@@ -169,6 +169,20 @@ def run_bn(ns, c):
                     viol.append(V("bn:eval-changed-buffers", "an eval-mode forward changed running statistics or the batch counter", events=events[-4:]))
         if len(viol) > 2:
             break
+    if c["track"] and not viol:
+        # tracking switched off on the live module (buffers exist): an eval-mode forward still leaves them alone
+        m.track_running_stats = False
+        m.eval()
+        snap_ = (m.running_mean.data.tobytes(), m.running_var.data.tobytes())
+        shp_ = {2: (4, C), 3: (4, C, 2), 4: (4, C, 2, 1)}[c["rank"]]
+        try:
+            m(T(rng.standard_normal(shp_).astype(dt)))
+            counters["toggled_tracking_eval_forwards"] = 1
+            if (m.running_mean.data.tobytes(), m.running_var.data.tobytes()) != snap_:
+                viol.append(V("bn:eval-changed-buffers:tracking-switched-off-after-construction",
+                              "an eval-mode forward changed the running statistics after track_running_stats was set to False on the module"))
+        except Exception as e:
+            viol.append(V("bn:forward-raises:tracking-switched-off-after-construction", f"forward raised {type(e).__name__}", error=str(e)[:200]))
     nontrivial = switches >= 1 and ntrain_fw >= 2
     cfg = [c["rank"], c["momentum"], c["affine"], c["track"], c["dtype"]]
     return {"key": json.dumps([cfg, kinds]) if nontrivial else None, "viol": dedup(viol), "counters": counters,
